@@ -175,6 +175,8 @@ pub fn evaluate_compare_op(a: &Val, b: &Val, op: BinaryOpType) -> Result<Orderin
 		(BigInt(a), BigInt(b)) => a.cmp(b),
 
 		(Arr(a), Arr(b)) => {
+			// Arrays may be cyclic (`local a = [a]`), recursion should be bounded
+			let _guard = crate::stack::check_depth()?;
 			let ai = a.iter();
 			let bi = b.iter();
 
